@@ -21,7 +21,7 @@
    - [legal_history]: every operation is strictly legal and no two accepted
      headers share a hash (collision freedom of the header hash). *)
 From Coq Require Import Permutation.
-From VF.C18 Require Import Model ProofsA ProofsB ProofsC ProofsD ProofsE ProofsF ProofsG ProofsH ProofsI.
+From VF.C18 Require Import Model ProofsA ProofsB ProofsC ProofsD ProofsE ProofsF ProofsG ProofsH ProofsI ProofsJ.
 Local Open Scope N_scope.
 
 (* 1. Order, exactly once - for EVERY operation sequence, legal or not: the
@@ -109,6 +109,53 @@ Theorem C18_completion :
       t_scheduled t' = t_scheduled t /\ map r_hdr (t_released t') = t_scheduled t.
 Proof. exact completion. Qed.
 Print Assumptions C18_completion.
+
+(* 6. Only an EMPTY answer makes the queue believe that a peer lacks data: a
+   non-empty response - complete, truncated (soft response size limit) or even
+   wrong - leaves every lacking set unchanged, so the undelivered tail of a
+   truncated answer is offered to the same peer again. *)
+Theorem C18_nonempty_answer_marks_nothing_lacking :
+  forall derive p bs s, bs <> [] -> lacks (fst (deliver derive p bs s)) = lacks s.
+Proof. exact deliver_nonempty_lacks. Qed.
+Print Assumptions C18_nonempty_answer_marks_nothing_lacking.
+
+(* 7. Completion, generalised: the finishing peer need not be new.  It is
+   enough that the queue does not believe it to lack any block that is still
+   needed ([avail]) ... *)
+Theorem C18_completion_by_available_peer :
+  forall derive empty_root, derive [] = empty_root ->
+  forall cache_len, (1 <= cache_len)%nat ->
+  forall start (body : header -> list N) p ops,
+    legal_history derive empty_root cache_len start ops ->
+    let t := run derive empty_root cache_len start ops in
+    avail p t ->
+    (forall h, In h (t_scheduled t) -> derive (body h) = h_root h) ->
+    exists ops',
+      legal_from derive empty_root (strict_legal_op cache_len start) t ops' /\
+      Forall (only_p p) ops' /\
+      let t' := run derive empty_root cache_len start (ops ++ ops') in
+      t_scheduled t' = t_scheduled t /\ map r_hdr (t_released t') = t_scheduled t.
+Proof. exact completion_avail. Qed.
+Print Assumptions C18_completion_by_available_peer.
+
+(* ... which holds in particular for every peer that took part in the history
+   and never sent an empty answer - e.g. the single honest peer that always
+   answers truthfully but truncates its responses while everybody else stalls. *)
+Theorem C18_completion_by_nonempty_answerer :
+  forall derive empty_root, derive [] = empty_root ->
+  forall cache_len, (1 <= cache_len)%nat ->
+  forall start (body : header -> list N) p ops,
+    legal_history derive empty_root cache_len start ops ->
+    never_answered_empty p ops ->
+    let t := run derive empty_root cache_len start ops in
+    (forall h, In h (t_scheduled t) -> derive (body h) = h_root h) ->
+    exists ops',
+      legal_from derive empty_root (strict_legal_op cache_len start) t ops' /\
+      Forall (only_p p) ops' /\
+      let t' := run derive empty_root cache_len start (ops ++ ops') in
+      t_scheduled t' = t_scheduled t /\ map r_hdr (t_released t') = t_scheduled t.
+Proof. exact completion_by_nonempty_answerer. Qed.
+Print Assumptions C18_completion_by_nonempty_answerer.
 
 (* The property, all clauses, for legal histories. *)
 Definition C18_full : Prop :=
@@ -210,3 +257,26 @@ Proof.
   vm_compute. intros (_ & _ & _ & H & _). discriminate.
 Qed.
 Print Assumptions C18_nonvacuous_stale_cancel.
+
+(* peer 1 holds nothing useful (block 5 is empty); peer 2 is asked for 6 and 7 and
+   answers truthfully with a response truncated after block 6; nothing is marked lacking
+   and the next request to the same peer contains block 7 again; peer 3 of
+   [ex_ops] (one empty answer) is not covered by theorem 7's corollary *)
+Definition ex_truncated : list op :=
+  [ Schedule [h5; h6; h7] 5; Reserve 1 1 3; Reserve 2 3 3; Deliver 2 [[1]]; Results ].
+
+Example C18_nonvacuous_truncated_answer :
+  legal_history ex_derive 0 3 5 ex_truncated /\
+  never_answered_empty 2 ex_truncated /\
+  ~ never_answered_empty 3 ex_ops /\
+  let s := t_state (run ex_derive 0 3 5 ex_truncated) in
+  lacks s = [] /\ map h_hash (tqueue s) = [3] /\
+  fst (fst (snd (reserve 0 2 3 3 s))) = Some [h7].
+Proof.
+  split; [split; [vm_compute; repeat split; auto|vm_compute; repeat constructor; simpl; intuition discriminate]|].
+  split.
+  - intros bs [H|[H|[H|[H|[H|[]]]]]]; try discriminate. injection H as <-. discriminate.
+  - split; [|vm_compute; auto].
+    intros H. apply (H []); [|reflexivity]. unfold ex_ops. simpl. tauto.
+Qed.
+Print Assumptions C18_nonvacuous_truncated_answer.
